@@ -112,6 +112,29 @@ REQUIRED_FAMILIES = [
     "coll.ttc.member>0.upem-differs", "coll.ttc.member>0.shared-glyf.private-hmtx", "coll.ttc.member>0.fully-private",
     "coll.ttc.member>0.cff", "coll.ttc.member>0.subset-requested", "coll.ttc.member>0.instance-requested",
     "coll.ttc.layout:0", "coll.ttc.layout:1", "coll.ttc.layout:2", "coll.ttc.past-the-end-requested",
+    # (7) round 4: subsets whose cmap lands on every structural class of the emitted formats - PLANNED (glyph lists over a
+    # source whose character layout the harness prescribes) ...
+] + ["cmapb.plan." + p for p in (
+    "macroman.ascii", "macroman.all-reversed", "macroman.none-encoded", "macroman.new-id>255", "bmp.dense-in-order",
+    "bmp.dense-reversed", "bmp.glyphIdArray-x3+delta", "bmp.holes-1-2-3", "bmp.ascii+sparse", "bmp.touch-fffd-fffe",
+    "bmp.touch-ffff", "bmp.touch-fffd-ffff", "bmp.touch-ffff-reversed", "astral.one-group", "astral.reversed", "astral.sparse",
+    "astral.mixed", "random", "symbol-source", "two-subtables-source")
+] + ["cmapb.plan.bmp.segCount=%d" % k for k in (2, 3, 4, 5, 7, 8, 9, 15, 16, 17, 31, 32, 33, 255, 256, 257)] + [
+    # (8) multi-step sequences: a written font as the source of the next operation (requests counted from the plans)
+    "chain.plan.shapes-subset>subset", "chain.plan.instance>subset", "chain.plan.cff-subset-n240>subset",
+    "chain.plan.cff-subset-n300>subset", "chain.subset>subset.requested", "chain.subset>whole_font.requested",
+    "chain.instance>subset.requested", "chain.instance>whole_font.requested",
+]
+
+# classes MEASURED on what allsorts wrote (independent reader): reported, and a missing one is noted - not a tool error,
+# because a changed writer may legitimately (or by a defect that shows as a violation / a refusal) stop producing a class
+EXPECTED_MEASURED = [
+    "subset.out:cmap.f0", "subset.out:cmap.f4", "subset.out:cmap.f12", "subset.out:cmap.record:1/0", "subset.out:cmap.record:0/3",
+    "subset.out:cmap.record:0/4", "subset.out:cmap.record:3/0", "subset.out:cmap.f4.segCount:2^k", "subset.out:cmap.f4.segCount:2^k-1",
+    "subset.out:cmap.f4.segCount:2^k+1", "subset.out:cmap.f4.segCount=2", "subset.out:cmap.f4.segCount=3",
+    "subset.out:cmap.f4.segCount>=256", "subset.out:cmap.f4.delta+glyphIdArray-segments",
+    "subset.out:cmap.f4.second-glyphIdArray-segment", "subset.out:cmap.f4.glyphIdArray-hole",
+    "subset.out:cmap.f4.real-segment-touches-0xFFFE", "subset.out:cmap.f12.groups:1", "subset.out:cmap.f12.groups:>=16",
 ]
 
 
@@ -166,6 +189,9 @@ def _detail_key(ev, violated=(), m=None):
             if not w.get("privateOk"):
                 why.append("private")
         parts.append("cff=" + ",".join(why or ["structure"]))
+    if "CmapStructOK" in violated:
+        # which part of the written cmap fails (header / record order, the subtable format, the tiling): never a count
+        parts.append("cmap=" + "/".join(sorted(m.get("cmap") or ["structure"])))
     if x and x.get("has", {}).get("hmtx"):
         need = 4 * x["nHM"] + 2 * (x["numGlyphs"] - x["nHM"])
         ex = x["hmtxLen"] - need
@@ -215,7 +241,8 @@ def _blank_cross(op):
     has = {k: False for k in ("maxp", "hhea", "hmtx", "head", "loca", "glyf", "cff", "cmap", "post")}
     return {"has": has, "numGlyphs": -1, "nHM": -1, "hmtxLen": -1, "locFormat": -1, "locaLen": -1, "locaMonotone": True,
             "locaLast": -1, "glyfLen": -1, "maxCompId": -1, "glyphsParse": True, "cffCharstrings": -1, "cmapParses": True,
-            "cmapMaxGid": -1, "postVersion": [0, 0], "postLen": -1, "built": {"hmtx": False, "loca": False, "glyf": False},
+            "cmapMaxGid": -1, "postVersion": [0, 0], "postLen": -1, "built": {"hmtx": False, "loca": False, "glyf": False, "cmap": False},
+            "cmapw": {"walked": False, "why": "absent", "version": -1, "numTables": -1, "tableLen": -1, "records": [], "subtables": []},
             "glyphClasses": [], "glyfWalked": False, "headLsbBit": False, "lsbMismatch": -1, "srcLsbClean": False,
             "reload": {"tried": False, "ok": False, "advances": -1, "outlines": -1, "why": ""}, "op": op, "derived": [],
             "counts": {"hasVhea": False, "hasVmtx": False, "nVM": -1, "vmtxLen": -1, "postNumGlyphs": -1, "srcVmtxOk": False,
@@ -261,6 +288,37 @@ def _member(x, n, nhm, hmtx_len, want_nhm=None, loc=(0, 0), glyf_len=-1, tables=
                    "tables": [{"tag": t, "want": w, "got": g, "rebuilt": r} for t, w, g, r in tables]}
 
 
+def _f4(segs, gia=(), hdr=None, decl=None, off=12):
+    """A format 4 subtable as the independent reader reports it: segs = (start, end, idDelta, idRangeOffset)."""
+    n = len(segs)
+    es = n.bit_length() - 1
+    return {"off": off, "format": 4, "ok": True, "why": "", "declLen": 16 + 8 * n + 2 * len(gia) if decl is None else decl, "big": False,
+            "hdr": list(hdr) if hdr else [2 * n, 2 * (1 << es), es, 2 * n - 2 * (1 << es), 0],
+            "ends": [s[1] for s in segs], "starts": [s[0] for s in segs], "deltas": [s[2] for s in segs], "ros": [s[3] for s in segs],
+            "gia": list(gia), "groups": [], "nGroups": -1, "first": -1, "count": -1}
+
+
+def _f12(groups, decl=None, off=12):
+    return {"off": off, "format": 12, "ok": True, "why": "", "declLen": 16 + 12 * len(groups) if decl is None else decl, "big": False,
+            "hdr": [], "ends": [], "starts": [], "deltas": [], "ros": [], "gia": [], "groups": [list(g) for g in groups],
+            "nGroups": len(groups), "first": -1, "count": -1}
+
+
+def _cmap(x, subs, records=None, n=10, table_len=None):
+    """A subset with `n` glyphs whose cmap the library built: subtables back to back after the header."""
+    x["has"].update(cmap=True, maxp=True)
+    x["numGlyphs"] = n
+    x["built"]["cmap"] = True
+    recs = records if records is not None else [[0, 3, subs[0]["off"]]]
+    x["cmapw"] = {"walked": True, "why": "", "version": 0, "numTables": len(recs),
+                  "tableLen": subs[-1]["off"] + subs[-1]["declLen"] if table_len is None else table_len,
+                  "records": recs, "subtables": subs}
+
+
+_FIN = (65535, 65535, 1, 0)
+# three segments: a delta segment, a glyphIdArray segment (0x30..0x32 -> 5, 0 (hole), 6), the final one
+_SEG3 = [(0x20, 0x22, (1 - 0x20) % 65536, 0), (0x30, 0x32, 0, 4), _FIN]
+
 _BAD_INDEX = {"name": "charstrings", "count": 3, "offSize": 1, "first": 1, "last": 0, "mono": False, "inside": False, "dataLen": 0}
 
 # (case name "selftest-reject:<clause>:<what>" | "selftest-accept:<what>", operation, edit of a blank table set)
@@ -299,6 +357,42 @@ _HAND_PLANTS = [
      lambda x: _with_cff(x, walked=False, why="topdict")),
     ("selftest-accept:cff-well-formed", "subset",
      lambda x: _with_cff(x, fdCount=2, fdSelectGlyphs=6, fdMax=1)),
+    # round 4: the structure of a cmap the library built
+    ("selftest-accept:cmap-format4-delta+glyphIdArray", "subset", lambda x: _cmap(x, [_f4(_SEG3, gia=[5, 0, 6])])),
+    ("selftest-accept:cmap-format4-five-segments", "subset",
+     lambda x: _cmap(x, [_f4([(0x20 + 16 * k, 0x20 + 16 * k, (1 + k - 0x20 - 16 * k) % 65536, 0) for k in range(4)] + [_FIN])])),
+    ("selftest-reject:CmapStructOK:format4-searchRange-next-power-of-two", "subset",
+     lambda x: _cmap(x, [_f4(_SEG3, gia=[5, 0, 6], hdr=[6, 8, 2, -2 % 65536, 0])])),
+    ("selftest-reject:CmapStructOK:format4-rangeShift", "subset",
+     lambda x: _cmap(x, [_f4(_SEG3, gia=[5, 0, 6], hdr=[6, 4, 1, 4, 0])])),
+    ("selftest-reject:CmapStructOK:format4-idRangeOffset-one-word-short", "subset",
+     lambda x: _cmap(x, [_f4([_SEG3[0], (0x30, 0x32, 0, 2), _FIN], gia=[5, 0, 6])])),
+    ("selftest-reject:CmapStructOK:format4-idRangeOffset-past-the-array", "subset",
+     lambda x: _cmap(x, [_f4([_SEG3[0], (0x30, 0x32, 0, 6), _FIN], gia=[5, 0, 6])])),
+    ("selftest-reject:CmapStructOK:format4-glyph-id-not-in-font", "subset",
+     lambda x: _cmap(x, [_f4(_SEG3, gia=[5, 0, 10])])),
+    ("selftest-reject:CmapStructOK:format4-delta-segment-leaves-the-font", "subset",
+     lambda x: _cmap(x, [_f4([(0x20, 0x22, (8 - 0x20) % 65536, 0), _FIN])])),
+    ("selftest-reject:CmapStructOK:format4-no-final-segment", "subset",
+     lambda x: _cmap(x, [_f4([_SEG3[0], (0x30, 0x32, 0, 2)], gia=[5, 0, 6])])),
+    ("selftest-reject:CmapStructOK:format4-two-segments-end-at-0xFFFF", "subset",
+     lambda x: _cmap(x, [_f4([(0xFFFE, 0xFFFF, (1 - 0xFFFE) % 65536, 0), _FIN])])),
+    ("selftest-reject:CmapStructOK:format4-length-field-two-short", "subset",
+     lambda x: _cmap(x, [_f4(_SEG3, gia=[5, 0], decl=16 + 24 + 4)], table_len=12 + 16 + 24 + 6)),
+    ("selftest-reject:CmapStructOK:first-subtable-not-after-the-records", "subset",
+     lambda x: _cmap(x, [_f4(_SEG3, gia=[5, 0, 6], off=16)])),
+    ("selftest-reject:CmapStructOK:records-not-sorted", "subset",
+     lambda x: _cmap(x, [_f4(_SEG3, gia=[5, 0, 6], off=20), _f12([(0x20, 0x22, 1)], off=20 + 46)], records=[[3, 10, 66], [0, 3, 20]])),
+    ("selftest-accept:cmap-two-records-sorted", "subset",
+     lambda x: _cmap(x, [_f4(_SEG3, gia=[5, 0, 6], off=20), _f12([(0x20, 0x22, 1)], off=20 + 46)], records=[[0, 3, 20], [3, 10, 66]])),
+    ("selftest-reject:CmapStructOK:format12-groups-overlap", "subset",
+     lambda x: _cmap(x, [_f12([(0x20, 0x22, 1), (0x22, 0x23, 4)])], records=[[0, 4, 12]])),
+    ("selftest-reject:CmapStructOK:format12-length-field", "subset",
+     lambda x: _cmap(x, [_f12([(0x20, 0x22, 1)], decl=16)], records=[[0, 4, 12]], table_len=40)),
+    ("selftest-reject:CmapStructOK:format12-group-leaves-the-font", "subset",
+     lambda x: _cmap(x, [_f12([(0x1F600, 0x1F603, 7)])], records=[[0, 4, 12]])),
+    ("selftest-accept:cmap-copied-table-is-not-judged", "instance",
+     lambda x: (_cmap(x, [_f4(_SEG3, gia=[5, 0, 6], hdr=[6, 8, 2, 0, 0])]), x["built"].update(cmap=False))),
     # round 3: collection members. Member 0 has numberOfHMetrics 1, member 1 has 4 (4 glyphs): an hmtx for member 1
     # decoded with member 0's count is 4*1 + 2*3 = 10 bytes where member 1's own hhea / maxp demand 16
     ("selftest-reject:HmtxOK:member1-hmtx-has-the-length-of-member0-nHM", "woff2",
@@ -485,6 +579,9 @@ def run(ctx):
         raise vlib.ToolError("families not exercised by this run: %s" % missing)
     if missing:
         ctx.note("families not exercised (violations present): %s" % missing)
+    unmeasured = [k for k in EXPECTED_MEASURED if not fam.get(k)]
+    if unmeasured:
+        ctx.note("classes usually measured on the written tables that no output of this run shows: %s" % unmeasured)
     written = [e for e in events.values() if e["ev"] == "Written"]
     coverage = {
         "states": mc.distinct,
@@ -497,6 +594,7 @@ def run(ctx):
         "fontbuilder_outputs_judged": rep["events"],
         "recorded_ops": rec.get("ops", {}),
         "families_exercised": fam,
+        "measured_classes_not_seen": unmeasured,
         "repository_fonts_surveyed": rec.get("surveyed", 0),
         "repository_fonts_used": rec.get("fonts", 0),
         "source_features_covered_by_chosen_repository_fonts": rec.get("features_covered_by_chosen_fonts", []),
